@@ -144,4 +144,4 @@ def harnesses(tier):
 
 ASSUMPTIONS = ['children are abstract: eval() of a child returns a value or throws eval_error / runtime_error / out_of_range / std::exception / Boxed_Value / a foreign type',
                'Param_Types::match is an oracle; Scope push/pop are counters (their real code: C09)', 'exception objects are not destroyed by the model (no double-free claims)']
-OUTSIDE = ['propagation through dispatch (Proxy_Function / Dynamic_Proxy_Function / std::function wrappers) and library callbacks beyond node level', 'Dot_Access / Array_Call / Equation call sites (same pattern as Fun_Call: X4)']
+OUTSIDE = ['propagation through dispatch (Proxy_Function / Dynamic_Proxy_Function / std::function wrappers) and library callbacks beyond node level', 'dispatch() treating bad_boxed_cast / arity_error / guard_error that escape from the BODY of an entered overload as a mismatch (agent side note, not decided)', 'Exception_Handler_Impl (typed rethrow at the C++ boundary), the `throw` builtin']
